@@ -273,6 +273,44 @@ def musig_defined(ds, ks, msg, merkle_root):
     return True
 
 
+def musig_agg_sorted_secrets(ds):
+    """aggregate point for secrets LISTED IN INCREASING ORDER of their x-only keys (lift_x(x(dG)) is even(dG))"""
+    xs = [x32(curve.mul_G(d)) for d in ds]
+    cs = musig_coefs(xs)
+    acc = None
+    for i in range(len(ds)):
+        acc = curve.add(acc, curve.mul(cs[i], even(curve.mul_G(ds[i]))))
+    return acc
+
+
+def musig_defined_sorted(ds, ks, msg, merkle_root):
+    """musig_defined for secrets listed in strictly increasing order of their x-only keys (one case of the sort)"""
+    xs = [x32(curve.mul_G(d)) for d in ds]
+    for i in range(len(xs) - 1):
+        if not xs[i] < xs[i + 1]:
+            return False
+    agg = musig_agg_sorted_secrets(ds)
+    if curve.is_inf(agg):
+        return False
+    r1 = curve.mul_G(sum([k[0] for k in ks]))
+    r2 = curve.mul_G(sum([k[1] for k in ks]))
+    if curve.is_inf(r1) or curve.is_inf(r2):
+        return False
+    b = musig_nonce_coef(r1, r2, agg, msg)
+    if curve.is_inf(curve.add(r1, curve.mul(b, r2))):
+        return False
+    if len(merkle_root) != 0:
+        return tweak_defined(agg, merkle_root)
+    return True
+
+
+def musig_session_key_sorted(ds, merkle_root):
+    agg = musig_agg_sorted_secrets(ds)
+    if len(merkle_root) == 0:
+        return even(agg)
+    return output_key(agg, merkle_root)
+
+
 def musig_sign(ds, ks, msg, merkle_root):
     """the 64-byte signature the described scheme yields (secrets ds, nonce pairs ks)"""
     xs = xs_of_secrets(ds)
